@@ -14,6 +14,7 @@ Stress         free-running concurrent API traffic (real HTTP API when it can li
 """
 import itertools
 import os
+import random
 import re
 
 import vf
@@ -177,6 +178,7 @@ def persist_schedules(ctx, model, scheds, tag):
     info = {"schedules": len(scheds), "steps": c.get("steps", 0), "steps_not_enabled": c.get("steps_not_enabled", 0),
             "events": c.get("events", 0), "crash_points": c.get("crashes", 0),
             "crash_dir_reload_differs": c.get("crash_dir_reload_differs", 0),
+            "stale_temp_resurrects_removed_entry": c.get("stale_temp_resurrects_removed_entry", 0),
             "reload_dropped_subsumed": c.get("reload_dropped_subsumed", 0),
             "tainted_retries": c.get("tainted_retries", 0),
             "drift": res["drift"], "drift_notes": res.get("drift_notes", [])}
@@ -241,15 +243,20 @@ def persist(ctx, thorough):
     # three writers: exhaustive on the model (thorough), sampled schedules on the code
     if thorough:
         ctx.tlc("Blocklist", "MC_Persist.tla", "MC_Persist_W3.cfg", workers=8, timeout=3000, heap="12g")
+    # Crash is terminal in the model and enabled everywhere, so random simulation would
+    # cut most walks short: simulate without it, then end a share of the walks with a
+    # Crash at a (seeded) random point -- every prefix of a behaviour followed by Crash
+    # is a behaviour of BlPersist with MaxCrash = 1.
     behs = ctx.tlc_behaviours("Blocklist", "MC_Persist.tla", "Sim_Persist_W3.cfg",
                               num=150 if not thorough else 2500, depth=70, timeout=900)
+    rng = random.Random(ctx.seed)
     seen, scheds = set(), []
     for b in behs:
-        labs = [x[0] for x in b[1:]]
-        # -simulate labels carry no arguments: recover the stepping writer from the states
         sched = []
         for i in range(1, len(b)):
             sched.append(step_label(b[i - 1][1], b[i][1], b[i][0]))
+        if sched and rng.random() < 0.6:
+            sched = sched[:rng.randrange(1, len(sched) + 1)] + ["Crash"]
         k = ";".join(sched)
         if k not in seen:
             seen.add(k)
